@@ -598,7 +598,10 @@ class MetaClass(object):
                 referential_attributes[name] = value
             
         # set all named arguments
+        referential_names = dict((name.upper(), name) 
+                                 for name in self.referential_attributes)
         for name, value in kwargs.items():
+            name = referential_names.get(name.upper(), name)
             if name not in self.referential_attributes:
                 setattr(inst, name, value)
             else:
